@@ -39,10 +39,87 @@ fn esc(s: &str) -> String {
     o
 }
 
+/// Is `krate` part of the analysed workspace (as opposed to std / a registry dependency)?  Decided by where its root module lives.
+fn is_ws_crate<'tcx>(tcx: TyCtxt<'tcx>, krate: rustc_hir::def_id::CrateNum) -> bool {
+    if krate == LOCAL_CRATE {
+        return true;
+    }
+    let root = DefId { krate, index: rustc_hir::def_id::CRATE_DEF_INDEX };
+    let sm = tcx.sess.source_map();
+    let lo = sm.lookup_char_pos(tcx.def_span(root).lo());
+    let f = format!("{}", lo.file.name.prefer_local_unconditionally());
+    !(f.contains("/.cargo/registry/") || f.contains("/rustc/") || f.contains("/rustlib/") || f.contains("/registry/src/"))
+}
+
+/// rustc prints an item of an impl as `<T as Trait>::item` / `T::item` when the impl sits in the module of its type and as
+/// `module::<impl Trait for T>::item` / `module::<impl T>::item` when it sits elsewhere (another file, a macro in the parent module).
+/// Where an impl block is written is not a fact about the program: items of workspace crates are always named in the first form.
+fn canon_impl_path(s: &str) -> String {
+    let idx = match s.find("<impl ") {
+        Some(i) => i,
+        None => return s.to_string(),
+    };
+    if idx > 0 && !s[..idx].ends_with("::") {
+        return s.to_string();
+    }
+    let b = s.as_bytes();
+    let mut depth = 0i32;
+    let mut end = None;
+    let mut i = idx;
+    while i < b.len() {
+        match b[i] {
+            b'<' => depth += 1,
+            b'>' if i > 0 && b[i - 1] == b'-' => {}
+            b'>' => {
+                depth -= 1;
+                if depth == 0 {
+                    end = Some(i);
+                    break;
+                }
+            }
+            _ => {}
+        }
+        i += 1;
+    }
+    let end = match end {
+        Some(e) => e,
+        None => return s.to_string(),
+    };
+    let inner = &s[idx + 6..end];
+    let suffix = &s[end + 1..];
+    // " for " at nesting depth 0 separates trait and self type
+    let ib = inner.as_bytes();
+    let mut d = 0i32;
+    let mut pos = None;
+    let mut j = 0;
+    while j < ib.len() {
+        match ib[j] {
+            b'<' | b'(' | b'[' => d += 1,
+            b'>' if j > 0 && ib[j - 1] == b'-' => {}
+            b'>' | b')' | b']' => d -= 1,
+            b' ' if d == 0 && inner[j..].starts_with(" for ") => {
+                pos = Some(j);
+                break;
+            }
+            _ => {}
+        }
+        j += 1;
+    }
+    match pos {
+        Some(p) => format!("<{} as {}>{}", &inner[p + 5..], &inner[..p], suffix),
+        None => format!("{}{}", inner, suffix),
+    }
+}
+
 fn qpath<'tcx>(tcx: TyCtxt<'tcx>, did: DefId) -> String {
     // crate-qualified path
     let k = tcx.crate_name(did.krate);
-    format!("{}::{}", k, tcx.def_path_str(did).trim_start_matches(&format!("{}::", k)))
+    let p = tcx.def_path_str(did);
+    let rel = p.trim_start_matches(&format!("{}::", k));
+    if rel.contains("<impl ") && is_ws_crate(tcx, did.krate) {
+        return format!("{}::{}", k, canon_impl_path(rel));
+    }
+    format!("{}::{}", k, rel)
 }
 
 fn place_json<'tcx>(tcx: TyCtxt<'tcx>, body: &Body<'tcx>, p: &Place<'tcx>) -> String {
